@@ -16,6 +16,8 @@ import CompmechVerif.Core.NumSpec
 import CompmechVerif.Gen.PanelNum.Plate
 import CompmechVerif.Gen.PanelNum.CPanel
 import CompmechVerif.Spec.GaussBardell
+import CompmechVerif.Model.PanelGlueLemmas
+import CompmechVerif.Spec.PanelGlueKernels
 import Mathlib.Tactic.Ring
 import Mathlib.Tactic.FieldSimp
 import Mathlib.Tactic.FinCases
@@ -536,5 +538,67 @@ example (fl : Dir → Fld → Nat → ℝ) (base : PCtx ℝ) (ha : base.a ≠ 0)
   (kG_num_uniform_state_plate_tabulated (nx := 6) (ny := 6) (by simp [C10.Gen.LegGauss.table])
     (by simp [C10.Gen.LegGauss.table]) fl 5 4 0 5 base ha hb _ (TensorRule.family_point _ X0)
     (fun _ _ => h0) (fun _ _ => hN) 2 2).2 (by omega) (by omega) dir d₁ f₁ a d₂ f₂ b
+
+/-! ### the Python glue of `Panel.calc_kG0` (hand model `Model/PanelGlue.lean`, tied to the running `_panel.py` by the
+recorded-kernel-call correspondence of `tools/props/C02.py : glue_correspondence`)
+
+For ALL panel states `P` and call arguments `A` (over any linearly ordered field): what the glue hands to which kernel.
+`P.onStrip`: both `y1` and `y2` are numbers (`0.0` is a number); `boundsSpec P` = `[y1, y2]` then, `[]` otherwise;
+`zeroIfNone`: `None` read as `0.`; `placeSpec k P A` = `[size, row0, col0]` with the defaults `dofs·m·n`, `0`, `0`. -/
+
+section glue
+open Compmech.PanelGlue Compmech.Asm
+variable {F : Type} [Field F] [LinearOrder F]
+
+/-- **`calc_kG0` dispatch** (constant-load route, `c is None`): whenever the call succeeds it makes exactly ONE kernel call, to the
+analytic module; the strip kernel `fkG0y1y2` iff both bounds are given, with exactly `(y1, y2)` in front, `fkG0` with no bounds
+otherwise; the loads are handed over as `(Nxx, Nyy, Nxy)` IN THIS ORDER, `None` read as `0`; then the panel and the placement;
+the panel object carries `r` and `alpharad` refreshed from the current definition (`None → 0`); the result is
+`finalize_symmetric_matrix` of the kernel's matrix iff `finalize`. -/
+theorem calc_kG0_dispatch (P : Panel F) (A : Args F) (R : Result F) (hc : A.c = none)
+    (h : (calcKG0 P A).res = .ok R) :
+    ∃ k g, (calcKG0 P A).post.model = .kind k ∧ R.calls = [g] ∧ g.num = false ∧
+      (g.name = .fkG0y1y2 ↔ P.onStrip) ∧ (g.name = .fkG0 ↔ ¬ P.onStrip) ∧
+      g.args = boundsSpec P ++ [.q (zeroIfNone P.Nxx), .q (zeroIfNone P.Nyy), .q (zeroIfNone P.Nxy), .panel] ++ placeSpec k P A ∧
+      g.r = some (zeroIfNone P.r) ∧ g.alpharadFrom = some (zeroIfNone P.alphadeg) ∧
+      R.comb = (if A.finalize = true then Comb.fin else id) (.call 0) := by
+  obtain ⟨k, P3, hsd, hpost, hk, hr, hal, hR⟩ := calcKG0_ok hc h
+  have hn := name_strip_iff P P (SameDef.refl P) .fkG0y1y2 .fkG0 (by decide)
+  refine ⟨k, _, by rw [hpost]; exact hk, by rw [hR], rfl, hn.1, hn.2, ?_, ?_, ?_, ?_⟩
+  · show _ ++ _ ++ placement A _ = _
+    rw [placement_eq]
+  · show P3.r = _; rw [hr, getD_eq_zeroIfNone]
+  · show P3.alpharadFrom = _; rw [hal, getD_eq_zeroIfNone]
+  · rw [hR]; cases A.finalize <;> simp [finWrap]
+
+/-- non-vacuity: the witness panel (strip from `y1 = 0.0`, `Nyy = None`) gets `fkG0y1y2(0, 1/2, 3, 0, −3, panel, 6·3, 0, 0)` -/
+example : ∃ R, (calcKG0 exPanel {}).res = .ok R ∧
+    sig R = [(.fkG0y1y2, [.q 0, .q (1 / 2), .q 3, .q 0, .q (-3), .panel, .nat 18, .nat 0, .nat 0])] := by
+  exact ⟨_, rfl, rfl⟩
+
+/-- **`calc_kG0` with the regenerated flat-plate kernels**: combined with `kG0_matrix_plate` / `kG0y1y2_matrix_plate`, at the
+positions of ANY two degrees of freedom the matrix `calc_kG0()` returns holds the Hessian of the pre-stress work
+`½∬ Nxx w,x² + 2 Nxy w,x w,y + Nyy w,y²` of the panel's OWN loads `(Nxx, Nyy, Nxy)` (`panelLoads P base`: the kernel context with
+exactly these three numbers, `None` read as 0) over the panel's OWN domain (`domOf P`: the strip iff both bounds are given). -/
+theorem calc_kG0_eq_prestress_hessian_plate [CharZero F] (P : Panel F) (A : Args F) (R : Result F) (base : PCtx F)
+    (I : Integrals F) (hI : I.Comm) (ha : base.a ≠ 0) (hb : base.b ≠ 0) (hc : A.c = none) (hfin : A.finalize = true)
+    (hplace : A.row0 = A.col0) (h : (calcKG0 P A).res = .ok R)
+    {i k j l : Nat} (hi : i < P.m) (hk : k < P.m) (hj : j < P.n) (hl : l < P.n) (α β : Fin 3) :
+    toFun (R.eval (panelKern plateTable base I P.m P.n)) (A.row0.getD 0 + 3 * (j * P.m + i) + α.val)
+        (A.row0.getD 0 + 3 * (l * P.m + k) + β.val)
+      = hessian (ctxAt (panelLoads P base) I i k j l) .full (domOf P) (gradOps (panelLoads P base))
+          (prestressW (panelLoads P base)) (fld3 α) (fld3 β) := by
+  rw [calc_kG0_panelKern plateTable P A R base I hc hfin h hplace]
+  have ha' : (panelLoads P base).a ≠ 0 := ha
+  have hb' : (panelLoads P base).b ≠ 0 := hb
+  unfold cooOf domOf
+  rw [plateTable_fkG0, plateTable_fkG0y1y2]
+  cases P.y1 <;> cases P.y2 <;> simp only
+  · exact kG0_matrix_plate (panelLoads P base) I hI ha' hb' P.m P.n _ hi hk hj hl α β
+  · exact kG0_matrix_plate (panelLoads P base) I hI ha' hb' P.m P.n _ hi hk hj hl α β
+  · exact kG0_matrix_plate (panelLoads P base) I hI ha' hb' P.m P.n _ hi hk hj hl α β
+  · exact kG0y1y2_matrix_plate (panelLoads P base) I hI ha' hb' P.m P.n _ hi hk hj hl α β
+
+end glue
 
 end Compmech.Panel.C03
